@@ -29,6 +29,9 @@ CHECK_DEADLOCK FALSE
 ORDER = {"k": 0}
 
 
+NOISE = np.random.default_rng(909)
+
+
 def series(a, dt):
     """all six measures on ONE object, in an order that varies from call to call, each evaluated twice (the second
     value is kept): measures must not disturb each other or the object; every third object has a history (it held
@@ -51,6 +54,9 @@ def series(a, dt):
         s.reset_values(a)
     else:
         s = eqsig.AccSignal(a, dt)
+    if k % 2:
+        # other public functions applied to the same object just before (durations on other measures, spectra, detectors ...)
+        gen.asig_noise(NOISE, s)
     order = list(itertools.permutations(MEAS))[(k * 37) % 720]
     out = {}
     for m in order:
